@@ -32,6 +32,52 @@ impl Writer<TW> for Push {
 impl writer::Normalized for Push {}
 impl writer::NonTransforming for Push {}
 
+/// World of a sibling run: another `Cucumber` of the same test binary, driven concurrently with the
+/// traced one. Only one run can own the collector; the sibling's spans still go to the global
+/// subscriber, so its lines carry scenario ids the collector has never been told about.
+#[derive(Debug, Default, cucumber::World)]
+struct SW;
+
+/// Stays pending once without asking to be woken: the sibling advances whenever its owner is polled.
+struct Breather(bool);
+impl std::future::Future for Breather {
+    type Output = ();
+    fn poll(mut self: Pin<&mut Self>, _: &mut std::task::Context<'_>) -> Poll<()> {
+        if self.0 {
+            Poll::Ready(())
+        } else {
+            self.0 = true;
+            Poll::Pending
+        }
+    }
+}
+
+fn sibling_step(_: &mut SW, _: cucumber::step::Context) -> futures::future::LocalBoxFuture<'_, ()> {
+    Box::pin(async {
+        for i in 0..40 {
+            // (a few lines per poll: whatever is queued behind them has to get past all of them)
+            for k in 0..(1 + i % 4) {
+                tracing::error!("OUT:sibling run line {i}.{k}");
+            }
+            Breather(false).await;
+        }
+    })
+}
+
+fn sibling_run() -> futures::stream::LocalBoxStream<'static, cucumber::parser::Result<cucumber::Event<cucumber::event::Cucumber<SW>>>> {
+    use cucumber::{Runner as _, gherkin};
+    let at = gherkin::LineCol { line: 1, col: 1 };
+    let span = gherkin::Span { start: 0, end: 0 };
+    let step = |text: &str| gherkin::Step { keyword: "Given ".into(), ty: gherkin::StepType::Given, value: text.into(), docstring: None, table: None, span, position: at };
+    let scenario = |name: &str| gherkin::Scenario { keyword: "Scenario".into(), name: name.into(), description: None, steps: vec![step("sibling"), step("sibling")], examples: vec![], tags: vec![], span, position: at };
+    let feature = gherkin::Feature { keyword: "Feature".into(), name: "sibling".into(), description: None, background: None, scenarios: vec![scenario("one"), scenario("two")], rules: vec![], tags: vec![], span, position: at, path: None };
+    runner::Basic::<SW>::default()
+        .given(regex::Regex::new("^sibling$").unwrap(), sibling_step)
+        .max_concurrent_scenarios(2)
+        .run(stream::iter(vec![Ok(feature)]), runner::basic::Cli::default())
+        .boxed_local()
+}
+
 fn single(seed: u64, idx: u64) -> Tally {
     let prof = spec::Profile::by_name("c20");
     let mut case = spec::generate(&prof, seed, idx);
@@ -167,6 +213,24 @@ fn single(seed: u64, idx: u64) -> Tally {
     }
     let q = sink.0.clone();
     let mut done = false;
+    // every 6th run has a sibling run next to it in the same process (polled whenever this one is)
+    let with_sibling = idx % 6 == 4;
+    let sibling = Rc::new(RefCell::new(with_sibling.then(sibling_run)));
+    {
+        // the sibling also gets a turn before every line a callback of this run logs: its lines land
+        // in between this run's
+        let sib = Rc::clone(&sibling);
+        world::set_log_hook(Some(Box::new(move || {
+            let mut slot = sib.borrow_mut();
+            if let Some(s) = slot.as_mut() {
+                let waker = futures::task::noop_waker();
+                let mut cx = std::task::Context::from_waker(&waker);
+                if let Poll::Ready(None) = s.poll_next_unpin(&mut cx) {
+                    *slot = None;
+                }
+            }
+        })));
+    }
     let stream = stream::poll_fn(move |cx| {
         if let Some(it) = q.borrow_mut().pop_front() {
             return Poll::Ready(Some(it));
@@ -177,6 +241,15 @@ fn single(seed: u64, idx: u64) -> Tally {
         if fut.as_mut().poll(cx).is_ready() {
             done = true;
         }
+        // (after the traced run: it is the one that started first and took the process panic hook first)
+        if !done {
+            let mut slot = sibling.borrow_mut();
+            if let Some(sib) = slot.as_mut() {
+                if let Poll::Ready(None) = sib.poll_next_unpin(cx) {
+                    *slot = None;
+                }
+            }
+        }
         match q.borrow_mut().pop_front() {
             Some(it) => Poll::Ready(Some(it)),
             None if done => Poll::Ready(None),
@@ -185,6 +258,7 @@ fn single(seed: u64, idx: u64) -> Tally {
     })
     .boxed_local();
     let out = exec::drive(&case, shared, stream);
+    world::set_log_hook(None);
     let an = Analysis::new(&case, &out);
     let mut t = Tally::default();
     t.evaluations = 1;
@@ -197,6 +271,7 @@ fn single(seed: u64, idx: u64) -> Tally {
     t.count("runs_configured_through_the_cucumber_facade", u64::from(through_facade));
     t.count("runs_with_which_scenario_set_at_the_cucumber_facade", u64::from(through_facade && case.cfg.custom_which));
     t.count("runs_with_a_writer_wrapper_added_at_the_cucumber_facade", u64::from(wrap != 0));
+    t.count("runs_with_a_sibling_run_logging_in_the_same_process", u64::from(with_sibling));
     t.count("runs_of_a_cloned_cucumber_value", u64::from(clone_facade));
     t.count("c20.deferred_in_span_logs_fired", out.qpoints.iter().filter(|q| q.decision.contains("deferred")).count() as u64);
     t.count("lines_logged_outside_any_span_from_inside_callbacks", world::with_rs(|rs| rs.helper_logs.min(40)));
